@@ -7,6 +7,10 @@ import Driver.HsShared
   several exchanges of one process, the caller's key object (fresh | slot | setn) given the next key before
   each: the model's client is a function of ITS configuration and replies — no state outlives an exchange, a key
   is a value — so each exchange is answered on its own.
+  A tag ending in `+after` (the server keeps talking after the client gave up), `+req` or `+retry` (the application
+  goes on using the client object after the exchange was abandoned: a request, a second `CreateConnection`): the
+  result line is that of the exchange up to the return of `CreateConnection`; what the real client does afterwards
+  (it must write no encrypted message, store nothing) is judged by the oracle of the Go side only.
 -/
 namespace Driver.C07
 open Mtv Mtv.Handshake Driver Driver.Hs
